@@ -245,6 +245,14 @@ class DRYRule(BaseLintRule):  # pylint: disable=too-many-instance-attributes
         self._helpers.inline_ignore.clear()
         self._constants = []
         self._file_contents = {}
+        # Release the collected blocks as well: a later run on this rule instance must
+        # judge files by their current content, not by what an earlier run stored
+        self._storage.close()
+        self._storage = None
+        self._file_analyzer = None
+        self._config = None
+        self._project_root = None
+        self._initialized = False
         return violations
 
 
